@@ -43,6 +43,11 @@ pub enum ConnectError {
 impl H3Client {
     /// QUIC handshake with `sni` and the given ALPN list (wire order), then the HTTP/3 control streams
     pub fn connect(peer: SocketAddr, sni: Option<&str>, alpn: &[&[u8]], window: u64, patience: Duration) -> Result<H3Client, ConnectError> {
+        Self::connect_idle(peer, sni, alpn, window, patience, 30_000)
+    }
+
+    /// `idle_ms`: the client's max_idle_timeout transport parameter (the connection's idle timeout is the smaller of the two sides')
+    pub fn connect_idle(peer: SocketAddr, sni: Option<&str>, alpn: &[&[u8]], window: u64, patience: Duration, idle_ms: u64) -> Result<H3Client, ConnectError> {
         let socket = UdpSocket::bind("127.0.0.1:0").map_err(|e| ConnectError::Closed(e.to_string()))?;
         socket.set_nonblocking(true).unwrap();
         let local = socket.local_addr().unwrap();
@@ -57,7 +62,7 @@ impl H3Client {
         }
         let mut config = quiche::Config::new(quiche::PROTOCOL_VERSION).unwrap();
         config.verify_peer(false);
-        config.set_max_idle_timeout(30_000);
+        config.set_max_idle_timeout(idle_ms);
         config.set_max_recv_udp_payload_size(MAX_DGRAM);
         config.set_max_send_udp_payload_size(MAX_DGRAM);
         config.set_initial_max_data(window.saturating_mul(8));
